@@ -57,7 +57,7 @@ ASSUMPTIONS = [
     "TD3/SAC/TD7/MR.Q sum the regression losses of both Q heads (ContinuousClippedDoubleQNet trains both); q_mean of a clipped double Q-net is the mean of min(Q1,Q2)",
     "termination flags are int32 arrays, rewards float32 (what the replay buffers deliver)",
     "alphabets: N<=3, dims<=2, horizons<=3, 2-3 parameter sets per role, finite value alphabets; values are O(1) so that float32 losses are compared at 1e-5*max(1,|ref|)",
-    "jit and eager execution of a loss agree (checked on a subset of every work item); the bulk of the product runs under jax.jit, the shipped mode",
+    "jit and eager execution of a loss agree (checked on 2-3 cases of every work item at 1e-4*max(1,|x|): two float32 executions through LayerNorm over 3 units); the bulk of the product runs under jax.jit, the shipped mode (every train_* routine jits its update step)",
     "td7_update_critic is observed through its return values with a zero-learning-rate optimizer; gradients w.r.t. its target networks are not taken by the routine at all (argnums selects the critic), so the zero-gradient check does not apply to it",
     "SAC draws its bootstrap action with a per-row noise; batch permutation for SAC is therefore checked as: every permuted batch still equals the reference for that permuted batch",
 ]
@@ -133,7 +133,7 @@ def tojax(d):
 def param_pairs(tier):
     if tier == "quick":
         return [[0, 0], [0, 1], [1, 0], [1, 1]]
-    return [[i, j] for i in range(3) for j in range(3)]
+    return [[0, 0], [0, 1], [1, 0], [1, 1], [2, 2], [2, 0]]
 
 
 def items(tier, seed):
@@ -168,6 +168,10 @@ def items(tier, seed):
             out.append(dict(fam="mrq", N=N, O=O, A=A, H=H, part=[0, 1], tier=tier, seed=seed, name=f"mrq-N{N}-H{H}-O{O}-A{A}"))
             for norm in (True, False):
                 out.append(dict(fam="encoder", N=N, O=O, A=A, H=H, part=[0, 1], norm=norm, tier=tier, seed=seed, name=f"encoder-N{N}-H{H}-O{O}-A{A}-norm{int(norm)}"))
+    # largest batches first (they are the long items), families interleaved: a wall-clock cap on a busy machine
+    # then costs the tail of every family instead of whole families
+    fam_rank = {f: i for i, f in enumerate(["encoder", "mrq", "td7", "sac", "td3_lap", "ddqn_per", "ddqn", "nature", "dqn", "td3", "ddpg", "sale"])}
+    out.sort(key=lambda it: (-it["N"] * it.get("H", 1), it["name"].split("-", 1)[1], fam_rank[it["fam"]]))
     return out
 
 
@@ -700,8 +704,9 @@ def run_one_step(item, col):
                                 a2["nobs"] = f32(nb)
                                 if not same(out, evaluate(a2, n, gamma)):
                                     col.outcome(f"{fam}:live_row_successor_replacement_changes_loss")
-                            # (ii) batch permutations
-                            for p in perms[1:]:
+                            # (ii) batch permutations (SAC: against the reference of the permuted batch, so only
+                            # where the unpermuted batch agreed with its reference)
+                            for p in perms[1:] if (fam != "sac" or ok) else []:
                                 p = list(p)
                                 a2 = {kk: (v[p] if kk in ("obs", "nobs", "act", "nact", "rew", "w") else v) for kk, v in a.items()}
                                 n2 = {kk: (v[p] if kk in ("act", "term") else v) for kk, v in n.items()}
@@ -845,7 +850,7 @@ def run_mrq(item, col):
     scales = [(1.0, 1.0), (2.0, 0.5)]
     groups = patterns(N, H, item["part"])
     perms = list(itertools.permutations(range(N)))
-    pairs = param_pairs(tier) if tier == "thorough" else [[0, 0], [1, 1]]
+    pairs = [[0, 0], [1, 1], [2, 0]] if tier == "thorough" else [[0, 0], [1, 1]]
     col.outcome("work_items:mrq")
     real = None
     eager_left = 2
